@@ -23,7 +23,7 @@ func init() {
 			"(e) a nil error is returned only with a non-nil selected value; (f) 'best' replaces its candidate only when the new score is greater (or equal), taking value, score and provider from the same response; " +
 			"(g) 'majority' succeeds only when the winning count >= threshold (exactly that relation) and counts each response under its own root; (h) what 'first' returns was received from the result channel; " +
 			"(i) one request goroutine per configured provider (range over the provider map without early exit) and the expected-response count is len of that map. " +
-			"Added with the third seeding round: (k) a received response is passed over in favour of the kept candidate only where a candidate exists (the first acceptable response is adopted); (l) no 64-bit accessor of an arbitrary-precision amount in the scoring code. Added with the fourth seeding round: (m) no strategy fan-out runs under an errgroup context; (n) the head-nearness bonus is withheld only on a failed lookup or head > attestation slot; (o) tallies of the majority strategies are per call. NOT decided: optimality under latency (which responses have arrived by the decision point), score arithmetic, map-order tie-breaks, wall-clock bounds.",
+			"Added with the third seeding round: (k) a received response is passed over in favour of the kept candidate only where a candidate exists (the first acceptable response is adopted); (l) no 64-bit accessor of an arbitrary-precision amount in the scoring code. Added with the fourth seeding round: (m) no strategy fan-out runs under an errgroup context; (n) the head-nearness bonus is withheld only on a failed lookup or head > attestation slot; (o) tallies of the majority strategies are per call. Added with the fifth seeding round: (p) a fan-out worker sends at most one message per request on its result/error channels (no path from one send to another), (q) whether a proposal's fee recipient is examined depends on the proposal's version only. NOT decided: optimality under latency (which responses have arrived by the decision point), score arithmetic, map-order tie-breaks, wall-clock bounds.",
 		Technique: "template conformance over all strategy packages on SSA and typed AST: context provenance through parameters/closures, select-arm analysis, cancel pairing by path queries, guard/edge-deletion with relation sets, loop-exit analysis",
 		Rule:      "one obligation per select/receive (a,b), per cancel function (c), per forwarding send (d), per success return (e,h), per score comparison (f), per threshold test (g), per fan-out loop (i)",
 	})
@@ -728,7 +728,7 @@ func runC07(p *core.Prog, r *core.Report, tier string) {
 		for top.Parent() != nil {
 			top = top.Parent()
 		}
-		if top.Signature.Recv() == nil || top.Name() == "New" {
+		if top.Name() == "New" {
 			continue
 		}
 		fromService := func(v ssa.Value) (string, bool) {
@@ -807,7 +807,79 @@ func runC07(p *core.Prog, r *core.Report, tier string) {
 	if nShared == 0 {
 		r.Hold("C07.o", "majority|tallies-are-per-call", "", fmt.Sprintf("%d collection writes in the majority strategies, none on a collection held in a service", nTally))
 	}
-	r.Floor("C07.o collection writes in majority strategies", nTally, 4)
+	r.Floor("C07.o collection writes in majority strategies", nTally, 1)
+
+	// ---- (p) a request worker reports once: no path leads from one send on a result/error channel parameter to
+	// another (a node counted as errored and as responded makes the collector stop one message early) ----
+	nWorkers := 0
+	for _, f := range fns {
+		var sends []ssa.Instruction
+		core.EachInstr(f, func(in ssa.Instruction) {
+			if sd, ok := in.(*ssa.Send); ok {
+				if _, isParam := sd.Chan.(*ssa.Parameter); isParam {
+					sends = append(sends, in)
+				} else if _, isFree := sd.Chan.(*ssa.FreeVar); isFree {
+					sends = append(sends, in)
+				}
+			}
+		})
+		if len(sends) < 2 {
+			continue
+		}
+		nWorkers++
+		isSend := func(x ssa.Instruction) bool {
+			for _, o := range sends {
+				if x == o {
+					return true
+				}
+			}
+			return false
+		}
+		var wit []ssa.Instruction
+		for _, sd := range sends {
+			if w := (core.PathQuery{Fn: f, From: sd, Target: isSend}).Find(); w != nil {
+				wit = w
+			}
+		}
+		r.Check(wit == nil, "C07.p", core.FnKey(f)+"|reports-once", p.Pos(f.Pos()), "the worker sends at most one message per request", "after sending on one of its channels the worker can go on to send again (a `return` is missing after a failure report): the node is counted twice, the collector's count reaches the number of requests one message early, and the strategy decides without the last outstanding node", p.WitnessText(wit)...)
+	}
+	r.Floor("C07.p request workers with several report sites", nWorkers, 5)
+
+	// ---- (q) every proposal that carries an execution payload (or its header) has its fee recipient examined before
+	// it is scored: the branches deciding whether the fee-recipient test is reached compare the version only ----
+	nFee := 0
+	for _, f := range fns {
+		if !strings.HasSuffix(core.RelPkg(f.Pkg.Pkg.Path()), "beaconblockproposal/best") {
+			continue
+		}
+		for _, ci := range core.Calls(f, func(c *ssa.CallCommon) bool {
+			return strings.HasSuffix(core.CalleeName(c), "VersionedProposal.FeeRecipient")
+		}) {
+			nFee++
+			k := 0
+			for _, di := range decidingIfs(f, ci.(ssa.Instruction)) {
+				c := core.DecodeCond(ds, di.If)
+				mentionsVersion := func(d *core.VD) bool {
+					return d != nil && d.Any(func(x *core.VD) bool { return x.Kind == "field" && x.Name == "Version" })
+				}
+				isErrOrNil := c.Op != "" && (c.X.Kind == "const" && c.X.Name == "nil" || c.Y.Kind == "const" && c.Y.Name == "nil")
+				okc := isErrOrNil || c.Op != "" && (mentionsVersion(c.X) || mentionsVersion(c.Y))
+				if isErrOrNil {
+					continue
+				}
+				k++
+				what := "?"
+				if c.B != nil {
+					what = c.B.String()
+				} else if c.X != nil {
+					what = c.X.String() + " " + c.Op + " " + c.Y.String()
+				}
+				r.Check(okc, "C07.q", fmt.Sprintf("%s|fee-recipient-test#%d|decided-by-version-only#%d", core.FnKey(f), nFee, k), p.Pos(core.IfPos(di.If)), "whether the fee recipient is examined depends on the proposal's version only",
+					"whether a proposal's fee recipient is examined also depends on "+what+": proposals of a kind that skips the test (e.g. blinded ones) are scored and can be returned as best with a zero fee recipient")
+			}
+		}
+	}
+	r.Floor("C07.q fee recipient tests in the best proposal strategy", nFee, 1)
 
 	// ---- (g) majority threshold ----
 	nThr := 0
